@@ -349,8 +349,8 @@ func (s *srvConn) serve(cfg *negCfg, r *negRec) {
 					r.AuthPayload = u.raw[i+1 : j]
 				}
 			}
-			a := cfg.pick("auth", "success", "failure", "stream-error", "unexpected", "malformed", "truncated", "close", "success-pipelined", "success-with-data")
-			r.answer("auth", a, strings.HasPrefix(a, "success"))
+			a := cfg.pick("auth", "success", "failure", "stream-error", "unexpected", "malformed", "truncated", "close", "success-pipelined", "success-with-data", "success-unclosed")
+			r.answer("auth", a, strings.HasPrefix(a, "success") && a != "success-unclosed")
 			switch a {
 			case "success", "success-with-data":
 				if a == "success" {
@@ -386,6 +386,10 @@ func (s *srvConn) serve(cfg *negCfg, r *negRec) {
 				s.send("<success xmlns=" + nsSASL + "/>") // unquoted attribute value
 				s.drainAfterFailureLenient(r)
 				return
+			case "success-unclosed":
+				s.send("<success xmlns='" + nsSASL + "'>")
+				s.close()
+				return
 			case "truncated":
 				s.send("<success xmlns='urn:ietf:params:xml:ns:xmpp-sa")
 				s.close()
@@ -402,7 +406,7 @@ func (s *srvConn) serve(cfg *negCfg, r *negRec) {
 			}
 			r.ResumeSeen = append(r.ResumeSeen, u.raw)
 			prev := attr(u.raw, "previd")
-			a := cfg.pick("resume", "resumed-same", "resumed-other", "failed", "failed-known-condition", "failed-no-condition", "unexpected", "close")
+			a := cfg.pick("resume", "resumed-same", "resumed-other", "failed", "failed-known-condition", "failed-no-condition", "unexpected", "close", "resumed-unclosed")
 			r.answer("resume", a, a == "resumed-same" || strings.HasPrefix(a, "failed"))
 			switch a {
 			case "resumed-same":
@@ -427,6 +431,11 @@ func (s *srvConn) serve(cfg *negCfg, r *negRec) {
 				continue
 			case "resumed-other":
 				s.send(fmt.Sprintf("<resumed xmlns='%s' previd='%s-other' h='0'/>", nsSM, prev))
+			case "resumed-unclosed":
+				// the start tag of the positive answer, complete, and then the connection ends inside the element
+				s.send(fmt.Sprintf("<resumed xmlns='%s' previd='%s' h='0'>", nsSM, prev))
+				s.close()
+				return
 			case "unexpected":
 				s.send("<message xmlns='jabber:client'><body>x</body></message>")
 			case "close":
@@ -525,8 +534,8 @@ func (s *srvConn) serve(cfg *negCfg, r *negRec) {
 				r.Order = append(r.Order, "enable requested although this stream's features do not offer stream management")
 			}
 			r.EnableSeen++
-			a := cfg.pick("enable", "enabled-resume-true", "enabled-resume-false", "enabled-no-resume", "failed", "failed-no-condition", "unexpected", "close", "malformed")
-			ok := strings.HasPrefix(a, "enabled")
+			a := cfg.pick("enable", "enabled-resume-true", "enabled-resume-false", "enabled-no-resume", "failed", "failed-no-condition", "unexpected", "close", "malformed", "enabled-unclosed")
+			ok := strings.HasPrefix(a, "enabled") && a != "enabled-unclosed"
 			r.answer("enable", a, ok)
 			r.EnableAnswer = a
 			id := cfg.smID
@@ -546,6 +555,10 @@ func (s *srvConn) serve(cfg *negCfg, r *negRec) {
 				s.send(fmt.Sprintf("<failed xmlns='%s'/>", nsSM))
 			case "unexpected":
 				s.send("<message xmlns='jabber:client'><body>x</body></message>")
+			case "enabled-unclosed":
+				s.send(fmt.Sprintf("<enabled xmlns='%s' id='%s' resume='true'>", nsSM, id))
+				s.close()
+				return
 			case "malformed":
 				// the positive answer with an end tag that does not match
 				s.send(fmt.Sprintf("<enabled xmlns='%s' id='%s' resume='true'></enable>", nsSM, id))
